@@ -106,12 +106,11 @@ def handleLinalg : List String → Option String
       return showPts (matrixTranspose m)
   | ["la.mmul", a, b] => do
       let a ← parsePts a; let b ← parsePts b
-      if a.isEmpty || b.isEmpty || (a.headD []).length != b.length || !(rowsGe a b.length)
-          || !(rowsGe b (b.headD []).length) then return "ERR"
+      if !(matrixMultiplyOk a b) then return "ERR"
       return showPts (matrixMultiply a b)
   | ["la.mvec", a, v] => do
       let a ← parsePts a; let v ← parseList v
-      if a.isEmpty || v.isEmpty || (a.headD []).length != v.length || !(rowsGe a v.length) then return "ERR"
+      if !(matrixVectorOk a v) then return "ERR"
       return showList (matrixVector a v)
   | ["la.mscal", m, s] => do
       let m ← parsePts m; let s ← parseRat s
